@@ -16,6 +16,7 @@ import (
 
 	"github.com/moov-io/ach"
 
+	"verifharness/internal/gen"
 	"verifharness/internal/hx"
 	"verifharness/internal/rng"
 )
@@ -56,7 +57,7 @@ type opCase struct {
 
 // fileCase says how the file under test is obtained.
 type fileCase struct {
-	Kind    string `json:"kind"`              // reader | json | api
+	Kind    string `json:"kind"`              // reader | json | api | gen | gentext
 	Name    string `json:"name,omitempty"`    // provenance (fixture path, mutation), informational
 	TextHex string `json:"textHex,omitempty"` // reader / json: the exact input bytes
 	Opts    uint32 `json:"opts,omitempty"`    // reader / json: ValidateOpts mask given to the reader; api: SetValidation mask
@@ -112,6 +113,34 @@ func buildFile(fc fileCase) (f *ach.File, panicked any) {
 		return file, nil
 	case "api":
 		return genAPIFile(fc), nil
+	case "api-adv": // NewFile + AddBatch(NewBatch(ADV header)), File.Create not called
+		f := ach.NewFile()
+		f.Header.ImmediateDestination = "231380104"
+		f.Header.ImmediateOrigin = "121042882"
+		f.Header.FileCreationDate = "190816"
+		f.Header.ImmediateDestinationName = "Federal Reserve Bank"
+		f.Header.ImmediateOriginName = "My Bank Name"
+		addADVBatch(rng.New(fc.Seed), f, 1)
+		return f, nil
+	case "api-padded": // routing numbers written the way the record shows them: a blank, then nine digits
+		f := gen.File(rng.New(fc.Seed), gen.Opts{})
+		f.Header.ImmediateDestination = " " + strings.TrimSpace(f.Header.ImmediateDestination)
+		f.Header.ImmediateOrigin = " " + strings.TrimSpace(f.Header.ImmediateOrigin) + " "
+		return f, nil
+	case "gen": // valid file from the shared generator (built with the constructors, Create, Validate)
+		return genValidFile(fc), nil
+	case "gentext": // the same file written out and read back by the Reader under the case's options
+		g := genValidFile(fc)
+		text, err := gen.Text(g, fc.Seed&1 == 0)
+		if err != nil {
+			return nil, "gen.Text: " + err.Error()
+		}
+		r := ach.NewReader(strings.NewReader(text))
+		if !fc.NoOpts {
+			r.SetValidation(optsFromMask(fc.Opts))
+		}
+		file, _ := r.Read()
+		return &file, nil
 	}
 	return nil, "unknown file kind " + fc.Kind
 }
@@ -362,11 +391,35 @@ func checkCase(tc testCase) (fails []failure, nontrivial bool, fingerprint strin
 		return nil, false, ""
 	}
 	nontrivial = len(f.Batches)+len(f.IATBatches) > 0
-	// the model's invariant must hold for reader / constructor output
-	if tc.File.Kind != "json" {
-		if why := invViolation(f); why != "" {
-			fail("inv:"+tc.File.Kind+":"+why, "a file of the "+tc.File.Kind+" has a batch with a nil header or control (the model's invariant is false for it)")
+	// The model's condition for purity — no nil header / control up to and including the
+	// first ADV batch — must hold for what the Reader returns and for what File.Create
+	// leaves.  Where it does not, the operations do write (IsADV installs defaults): that is
+	// reported, the file is then normalised the way File.Create / Reader.Read do it
+	// (f.IsADV()) and the check goes on, so that any other modification is still seen.
+	if !prefixInv(f) {
+		cause := prefixInvCause(f)
+		key := "condition:" + kindClass(tc.File.Kind) + ":" + cause
+		what := "a file of kind " + tc.File.Kind + " has " + cause + " before its first ADV batch ends the IsADV scan"
+		j0, _ := marshal(f)
+		func() {
+			defer func() { recover() }()
+			_ = f.ValidateWith(&ach.ValidateOpts{AllowMissingFileHeader: true})
+		}()
+		j1, _ := marshal(f)
+		if j0 != j1 {
+			what += "; ValidateWith changed its JSON encoding: " + strDiff(j0, j1)
+		} else {
+			what += "; (ValidateWith did not change the JSON encoding)"
 		}
+		// a file put together by hand from JSON may hold explicit nulls; only the Reader,
+		// the generators and the constructors are in the property's quantifier
+		if tc.File.Kind != "json" {
+			fail(key, what)
+		}
+		func() {
+			defer func() { recover() }()
+			f.IsADV()
+		}()
 	}
 	d0 := dump(f)
 	fingerprint = strings.Join(d0, "\n")
@@ -440,6 +493,17 @@ func strDiff(a, b string) string {
 		return s[lo:hi]
 	}
 	return fmt.Sprintf("at byte %d: %q vs %q", i, cut(a), cut(b))
+}
+
+// kindClass groups the file kinds by how the file came to be.
+func kindClass(kind string) string {
+	switch kind {
+	case "reader", "gentext":
+		return "reader"
+	case "api", "api-adv", "api-padded", "gen":
+		return "api"
+	}
+	return kind
 }
 
 // invViolation: "" if every element of File.Batches has a header and a control.
